@@ -296,4 +296,40 @@ def aripSolve (a : AripIn) (kkt : Bool := true) : R (List Rat) := do
   | none => throw .badInput
   | some z => pure ((List.range a.nHigh).map fun i => z.get i 0)
 
+/-! ### Option resolution of `Inlay.aggregate`, memoised per-variant loops (round 4) -/
+
+/-- `discard_missing` against the legacy keyword `remove_missing`: an explicit `discard_missing` (True or False) wins, the
+legacy value is used only when `discard_missing` is absent, the default is `False` -/
+def resolveDiscard (discard remove : Option Bool) : Bool :=
+  match discard, remove with
+  | some d, _ => d
+  | none, some r => r
+  | none, none => false
+
+/-- `method = method or "mean"` -/
+def resolveMethod (m : Option Method) : Method := m.getD .mean
+
+/-- `Series.aggregate(target_freq, method=…, discard_missing=…, remove_missing=…, select=…)` with every keyword optional -/
+def aggregateOpts (s : Ser) (to : Freq) (m : Option Method) (discard remove : Option Bool) (select : Option (List Int)) : R Ser :=
+  aggregate s to (resolveMethod m) (resolveDiscard discard remove) select
+
+/-- a loop over items (data variants) with a memo keyed by `key`: the stored result is reused whenever the key was seen
+before. `memoRun key f [] xs` is the loop started with an empty memo. -/
+def memoRun {α κ β} [DecidableEq κ] (key : α → κ) (f : α → β) : List (κ × β) → List α → List β
+  | _, [] => []
+  | memo, a :: as =>
+    match memo.lookup (key a) with
+    | some b => b :: memoRun key f memo as
+    | none => f a :: memoRun key f ((key a, f a) :: memo) as
+
+/-- everything the basic system matrices `F = KᵀK`, `C = Kᵀc` of `_create_basic_system_matrices` depend on -/
+def AripIn.basicKey (a : AripIn) : Nat × Rat × Rat × List Rat := (a.nHigh, a.rho, a.const, a.sigma)
+
+def aripBasic (a : AripIn) : QMat × QMat :=
+  let K := aripK a.nHigh a.rho a.sigma
+  (K.transpose * K, K.transpose * aripKc a.nHigh a.const a.sigma)
+
+/-- `disaggregate_arip_data` over all data variants: one system per variant (the loop body is `aripSolve`) -/
+def aripSolveAll (vs : List AripIn) (kkt : Bool := true) : List (R (List Rat)) := vs.map (aripSolve · kkt)
+
 end IrisVerif.Conv
